@@ -16,7 +16,7 @@ TRUSTED_BASE = [
     "extraction to OCaml 4.13.1 with ExtrOcamlBasic only (bool, option, unit, list, prod, sumbool, sumor, andb, orb); nat/N/positive stay Coq datatypes; no Extract Constant of our own",
     "OCaml drivers ocaml/{driver,concdriver,concdriver2,concdriver3x,dropdriver}.ml (parsing, printing, generators) and Rust harness harness/ (op interpreter, ledger item, listener, scripted schedulers concrun*/droprun, probes)",
     "fact extractors tools/extract_facts.py (fail-closed parsers) and the verif-hooks twins in /repo/src/verif_hooks.rs",
-    "translators tools/extract_facts.py (arithmetic kernels -> gen/Kernels.v) and tools/data_translate.py (data-touching functions, vmem bodies, wiring, symbolic execution of poll -> gen/DataFns.v, DataFnsV.v, PollGen.v): what they emit is proved equal to the Model by Coq on every run; that the emitted term means what the Rust text means (the primitives of Model/KernelM.v and Model/DataM.v) is trusted",
+    "translators tools/extract_facts.py (arithmetic kernels -> gen/Kernels.v) and tools/data_translate.py (data-touching functions, vmem bodies, wiring, symbolic execution of poll, the drop path, the functions of unsafe_sync_cell.rs -> gen/DataFns.v, DataFnsV.v, PollGen.v, LifeFns.v, CellFns.v): what they emit is proved equal to the Model by Coq on every run; that the emitted term means what the Rust text means (the primitives of Model/KernelM.v, Model/DataM.v, Model/LifeM.v and Model/CellM.v - among them the std functions MaybeUninit::zeroed / assume_init*, mem::replace, slice_from_raw_parts) is trusted",
     "modelled, not verified: the Rust semantics of the primitives and of the parts not translated (constructors, BufRef drop protocol, the async per-method closures; Model = transcription there, validated by correspondence on every run); usize as unbounded nat with len <= isize::MAX; allocator / destructor glue / MaybeUninit as cells; C11 release/acquire as a view machine; mmap semantics; rustc trait solver as oracle for Send/Sync",
 ]
 
